@@ -265,6 +265,7 @@ impl Analyzer {
             }
         }
         if colliding.len() > 1 {
+            colliding.sort(); // the set is iterated in hash order
             let mut mess = "variable name collision:\n".to_string();
             for c in colliding {
                 mess += &c;
